@@ -680,6 +680,25 @@ def manifest(pid, tier, replay):
             vs = variants(j["files"], rng)
             vectors.append((vs[0], j["exp"], "plain"))
             vectors.append((vs[1], j["exp"], "variant"))
+        # token level: every single-token mutation of valid token-level programs, judged by the reference parser of
+        # ManifestTok.tla (one TLC state per mutant, invariant: the reference is total)
+        tvec = os.path.join(wd, "tok.ndjson")
+        tr = run_tlc("ManifestTok.tla", _write(os.path.join(wd, "tok.cfg"), "SPECIFICATION TSpec\nINVARIANT TTotal\nCHECK_DEADLOCK FALSE\n"),
+                     env={"OUTT": tvec}, extra=["-noGenerateSpecTE"], workers=8, timeout=2400, xmx="8g")
+        if tr["error"] or not os.path.exists(tvec):
+            raise Broken("ManifestTok model check / export failed: %s\n%s" % (tr["error"], tr["out"][-1500:]))
+        SAFE = set("abcdefghijklmnopqrstuvwxyzABCDEFGHIJKLMNOPQRSTUVWXYZ0123456789_+-./")
+        KNOWNQ = {"x:y", "a b", "ox:y", "$", "o$", "i$", "oa b", "ia b", "=", ">", ":", "|", "||", "|@"}
+        ntok = ntok_skipped = 0
+        for line in open(tvec):
+            j = json.loads(line)
+            e = j["exp"]
+            # the reference tabulates shell quoting for its vocabulary only: skip mutants whose $in / $out would hold another name that needs quoting
+            if e["ok"] and any((set(p_) - SAFE) and p_ not in KNOWNQ for ed in e["edges"] for p_ in ed["outs"] + ed["ex"]):
+                ntok_skipped += 1
+                continue
+            ntok += 1
+            vectors.append((j["files"], e, "token-mutant"))
         stats = run(vectors)
         acc = [v for v in vectors if v[1]["ok"]]
         write_evidence(pid, tier, "model_checking", {
@@ -693,6 +712,9 @@ def manifest(pid, tier, replay):
                     "two include-or-subninja statements over two files that bind variables, declare rules and build outputs, with rebinding between and after), TLC-sampled by seed; each program in a plain "
                     "and a layout variant (CRLF, comments, $-newline continuations, $x for ${x}); non-trivial = programs accepted by the reference (their whole graph is compared)",
             "accepted_programs": stats["accepted"], "rejected_programs": stats["rejected"], "exhaustive": False,
+            "token_mutants": {"states": tr["distinct"], "exported": ntok, "skipped_for_untabulated_quoting": ntok_skipped,
+                              "rule": "spec/ManifestTok.tla: deletion, duplication, adjacent swap, substitution / insertion of structural and hostile tokens (':' '|' '||' '|@' '=' newline indent "
+                                      "tab bad-escape keywords names) at every position and every truncation of 3 valid token-level programs; mutants where ninja's lexer would split a word are unspecified and not exported"},
         }, time.time() - t0, nviol, ["TLC", "Manifest.tla as the reading of the manual", "paths and values come from a fixed vocabulary (canonicalisation and quoting of those are tabulated in the spec)"])
         return report(pid, found, {})
     finally:
